@@ -15,8 +15,12 @@ for sd in sorted(glob.glob(os.path.join(HERE, "seeded", "C*-*"))):
     lines = (r.get("lines") or {}).get(pid, [])
     first = det[0] if det else (lines[-1] if lines else "")
     viol = [l for l in lines if l.startswith("VIOLATION")]
+    ded = [d for d in det if " REFUTED" in d]
+    if ded:
+        det = ded + [d for d in det if d not in ded]
+        first = det[0]
     if det:
-        kind = "bounded stand-in" if ("#bounded." in det[0] or ".bounded." in det[0]) else "deductive"
+        kind = "deductive" if ded else "bounded stand-in"
         if kind == "deductive" and not any("replay:" in d and "no-failing" not in d for d in det) and all(v.endswith("no-failing-input-found") for v in viol):
             kind = "deductive, no-failing-input-found"
     else:
@@ -27,7 +31,7 @@ for sd in sorted(glob.glob(os.path.join(HERE, "seeded", "C*-*"))):
     if ex == 1:
         stats["caught"] += 1
         stats["bounded" if kind.startswith("bounded") else ("deductive_no_input" if "no-failing" in kind else "deductive_replayed")] += 1
-    rnd = {"A": 1, "B": 1, "C": 2, "D": 2, "E": 3, "F": 3}[sid[-1]]
+    rnd = {"A": 1, "B": 1, "C": 2, "D": 2, "E": 3, "F": 3, "G": 4, "H": 4}[sid[-1]]
     name = first.split(" ")[0] if first else ""
     rows.append(f"| {sid} | {rnd} | {(meta.get('summary') or '')[:230].replace('|', '/')} | exit {ex} | {kind} | `{name[:110]}` |")
 out = ["# Seeded property-breaking changes (independent sub-agents; confirmed by us before storing)", "",
